@@ -267,7 +267,7 @@ def starts_ob(tname, opc, tier):
         lnotab = mkbytes([kw["i0"], kw["d0"]])
         code = make_portable(vt, co_lnotab=lnotab, co_firstlineno=kw["fl"], co_code=code_bytes)
         with no_text(opc):
-            bc = B.Bytecode(code, opc, first_line=kw["fl"] + kw["shift"])
+            bc = B.Bytecode(code, opc, first_line=kw["fl"] + kw["shift"], dup_lines=False)
             insts = list(bc)
         # reference: CPython rule for one lnotab pair (both signednesses agree for delta < 128)
         starts = []
